@@ -46,7 +46,7 @@ CHECKS.update({
 
 CHECKS.update({
  "C05": ("exploration",
-         "bounded-exhaustive enumeration of (protocol, shape, error position, status code, message, details) on the real Mux with independent wire decoders as oracle",
+         "bounded-exhaustive enumeration of (protocol, shape, error position, status code, message, details, response writer with/without Flush) on the real Mux with independent wire decoders as oracle; conformance pass with a real grpc-go client",
          "Every status code 1..16 plus out-of-range values, every message of length <= 3 over {a,%,space,newline,é} plus boundary messages, with 0-2 details, returned before or after 1-2 replies, on HTTP (json/proto/implicit), Twirp, gRPC(+json), gRPC-web(+json), gRPC-web-text and WebSocket: the client-side decoders of ref/wire must recover the same code, message and details (HTTP status per code.proto, Twirp names per the Twirp spec, percent-decoding per the gRPC spec, RFC 6455 frame validity).",
          "The in-process recorder models net/http trailer delivery; WebSocket close-code mapping is only required to be a sendable non-1000 code; leading/trailing spaces in gRPC-web trailer frames are not compared.",
          "DESIGN.md §3 C05"),
@@ -85,7 +85,7 @@ CHECKS.update({
 
 CHECKS.update({
  "C18": ("exploration",
-         "exhaustive enumeration of (protocol, shape, payload size, outcome, interceptor behaviour, stats, metadata) on the real Mux with logging interceptors/stats handler; differential against the same call without options",
+         "exhaustive enumeration of (protocol, shape, payload size, outcome, interceptor behaviour, stats, metadata) on the real Mux with logging interceptors/stats handler; differential against the same call without options; fault enumeration: every position of a failing response Write, and early exits (undecodable body, passed deadline, failing WebSocket writes)",
          "For every combination the interceptor log must show exactly one call of the right kind with the method's full name and streaming flags, the client must get what the interceptor returned, the stats log must match Tag InHeader Begin (payload|OutHeader)* OutTrailer? End with one End carrying the chain's error and one payload event per message, and pass-through options must leave status, body and headers identical to the option-free mux.",
          "Payload events are not demanded on WebSocket; error framing after HTTP stream messages is not demanded.",
          "DESIGN.md §3 C18"),
@@ -113,7 +113,7 @@ CHECKS.update({
          "Unsynchronised accesses between scheduling points are not interleaved (covered by the immutability monitor and the -race pass); pools are not scheduling points here.",
          "DESIGN.md §3 C12"),
  "C13": ("model_checking",
-         "stateless deviation-bounded exploration (preemptions + 'pool emptied' environment answers, iterated bounds) of concurrent request pairs/triples on the real Mux under the controlled scheduler; differential against each request's solo run; separate free-running -race pass",
+         "stateless deviation-bounded exploration (preemptions + 'pool emptied' environment answers, iterated bounds) of concurrent request pairs/triples on the real Mux under the controlled scheduler; differential against each request's solo run; pool-discipline and WaitGroup-contract monitors in the sync shims; separate free-running -race pass",
          "Pairs (thorough: all 36 pairs + triples) of requests of 8 kinds chosen to collide on bytesPool, bufPool and the gzip pools run concurrently on one Mux; scheduling points at every pool Get/Put, WaitGroup op, body Read, response Write and handler step. In every explored schedule each response and each handler-seen message must equal the request's solo run and messages retained by handlers must be unchanged at the end; no panic, no deadlock. The same bodies then run free under the race detector.",
          "Races inside grpc-go/net/http are outside the scheduler; proxied streams are covered by C10.",
          "DESIGN.md §3 C13"),
@@ -129,7 +129,7 @@ CHECKS.update({
 
 CHECKS.update({
  "C10": ("model_checking",
-         "stateless preemption-bounded exploration (iterated bounds) of proxied-call scenarios on the real Mux under the controlled scheduler: front server thread, client thread, scripted back-end thread and larking's own pump goroutine; conformance replay of every script over real grpc-go transports; -race pass over the real-transport runs",
+         "stateless preemption-bounded exploration (iterated bounds) of proxied-call scenarios on the real Mux under the controlled scheduler: front server thread, client thread, scripted back-end thread and larking's own pump goroutine; pool-discipline and WaitGroup-contract monitors in the sync shims; conformance replay of every script over real grpc-go transports; -race pass over the real-transport runs",
          "For every call script (shape x client sequence x half-close or wait-for-status x back-end read/send/finish behaviour incl. every failure point x request metadata x gRPC or HTTP front) every interleaving up to the preemption bound is executed: the back-end must receive exactly what it would receive directly (messages, EOF, metadata), the client exactly the back-end's replies and final status; hangs are deadlocks of the controlled threads. Every script is then re-run end to end with real grpc-go on both sides and compared with a direct call to the back-end.",
          "The scripted back-end stream follows grpc-go's documented ClientStream contract, confirmed by the conformance pass; response header/trailer metadata is not compared; real-transport schedules are not enumerated.",
          "DESIGN.md §3 C10"),
